@@ -49,6 +49,7 @@ EXPECT = {
     'NAN2': [('FixtureShared::NanToPole', 'lat@')],
     'X9': [('FixtureShared::HalfFilled', 'buf')],
     'X10': [('FixtureShared::Decode', 'lat')],
+    'X12': [('FixtureShared::DecodeLoose', 'char[2] of 3')],
     'S2': [('FixtureConic::Forward', 'gamma')],
     'D1': [('FixtureConic::SetScale', '_nrho0')],
     'H1': [('FixtureConic::SetScale', '_k0')],
@@ -121,6 +122,11 @@ def run_controls(rules):
         elif r == 'X10':
             from .rules import decode
             res = decode.rule_X10(fx, [NS + 'FixtureShared::Decode'], maxlen=4)[0]
+        elif r == 'X12':
+            from .rules import decode
+            from .core import RuleResult
+            res = RuleResult('X12', 'control')
+            decode.rule_X10(fx, [NS + 'FixtureShared::DecodeLoose'], maxlen=5, x12=res)
         elif r == 'S2':
             from .rules import parity
             res = parity.rule_S2(fx, [NS + 'FixtureConic'])[0]
